@@ -40,8 +40,11 @@ TRUSTED_BASE = [
     "Python twin of the Lean spec in tools/harness/props/c07.py (compared with the Lean spec on every case)",
     "PDFCIDFont.__init__ glue (cidcoding, DW/DW2 validation, choice of W/DW vs W2/DW2 by writing mode) is hand-modelled "
     "(cidCoding, dwValue, dw2Value, cidCharWidth, cidCharDisp) and tie-checked on ill-typed / ill-formed dictionaries",
-    "PSStackParser tokenisation of ToUnicode streams is not modelled: the model starts from the token list "
-    "(hex strings, integers, names, arrays, keywords); streams are serialised from tokens in one fixed spelling",
+    "front of CMapParser: the tokenizer is C14's model Lexer.specLex (proved equal to the buffered PSBaseParser there); "
+    "the object grouping of PSStackParser.nextobject is hand-modelled (Model/CMapLex.lean groupAux) for flat arrays, "
+    "stray `]`, numbers / strings / names / keywords; dictionaries, procedures, booleans, keywords or brackets inside an "
+    "open array and an array left open are answered `outside` by the model (then only the implementation-vs-spec "
+    "relation is checked); tie by sampling over generated spellings (tubytes group)",
     "shipped CMap pickles are data: validated against Python codecs by sampling (quick) / exhaustively (thorough)",
     "exact rationals stand for Python floats (adv/matrix compared with tolerance 1e-9)",
 ]
@@ -100,6 +103,11 @@ STATEMENT_STATUS: Dict[str, str] = {
                     "exception for codes of any length",
     "codespace_ignored": "proved: codespace / notdef range sections (one or several code widths) leave the parsed map "
                          "unchanged, whatever their operands",
+    "tounicode_bytes_spec": "proved: from the BYTES of a ToUnicode CMap file (header, bfchar/bfrange sections in inDomain with "
+                            "any written count, trailer; any non-empty separator of white space / comments after every "
+                            "object) tokenizer + PSStackParser grouping + CMapParser = specified map",
+    "tounicode_bytes_assignments": "proved: the same without the U+00A0 hypothesis (sequence of assignments)",
+    "stackparser_groups_objects": "proved: PSStackParser grouping inverts the flattening of objects (flat arrays) into tokens",
     "future work": "utf16 round trip utf16Ignore (utf16Encode cps) = cps; theorems over the Lean model of "
                    "TrueTypeFont.create_unicode_map (formats 0/2/4 are modelled and tie-checked incl. damaged files, "
                    "and checked against independently built tables on the implementation, but no theorem)",
@@ -2519,6 +2527,30 @@ def spell_seq(rng, toks, strict: bool) -> bytes:
     return out
 
 
+def spell_theorem(rng, sections) -> bytes:
+    """Exactly the spelling of theorem tounicode_bytes_spec: every object (and array element, and bracket) followed by
+    one non-empty separator g of white space / comments; the count before begin... is any digit string."""
+    g = b"".join(rng.choice([b" ", b"\n", b"\r", b"\t", b"\x00", b"\x0c", b"%c <\n", b"%\r"])
+                 for _ in range(rng.randint(1, 3)))
+
+    def obj(t) -> bytes:
+        k = t[0]
+        if k == "s":
+            return b"<" + t[1].hex().encode() + b">" + g
+        if k == "a":
+            return b"[" + g + b"".join(obj(e) for e in t[1]) + b"]" + g
+        if k == "n":
+            return b"/" + t[1] + g
+        if k == "k":
+            return t[1].encode() + g
+        return b"%d" % t[1] + g
+    out = b"".join(obj(t) for t in HEADER_TOKS)
+    for sec in sections:
+        toks = render_sections([sec])[len(HEADER_TOKS):-len(TRAILER_TOKS)]
+        out += rng.choice([b"0", b"1", b"007", b"12", b"99999999999999999999"]) + g + b"".join(obj(t) for t in toks[1:])
+    return out + b"".join(obj(t) for t in TRAILER_TOKS)
+
+
 def tub_outcome(data: bytes) -> str:
     got, e = call(lambda: impl_tounicode(data))
     return map_line(got) if e is None else exc_line(e)
@@ -2565,7 +2597,10 @@ def run_tubytes(ctx: C.Ctx) -> None:
     b = Batch(ctx, auto=False)
     for i in range(ctx.n(300, 10000)):
         r = i % 4
-        if r < 2:          # in-grammar program, conformant spelling: implementation vs spec vs byte-level model
+        if r == 0:         # the spelling of theorem tounicode_bytes_spec (any separator, any written count)
+            secs = gen_sections(rng, wild=False)
+            check_tubytes(ctx, b, spell_theorem(rng, secs), secs, "theorem-spelling")
+        elif r == 1:       # in-grammar program, any conformant spelling: implementation vs spec vs byte-level model
             secs = gen_sections(rng, wild=False)
             check_tubytes(ctx, b, spell_seq(rng, render_sections(secs), True) + rng.choice([b"", b"\n", b" "]), secs,
                           "grammar")
